@@ -141,6 +141,8 @@ type Result struct {
 	CaseHash   uint64           // identifies (workload, schedule, faults)
 	SchedHash  uint64           // identifies the interleaving (0 = n/a)
 	States     []uint64         // state signatures reached in this run
+	Cases      []uint64         // optional: several distinct non-trivial cases in one run (fault enumeration)
+	Scheds     []uint64         // optional: several schedule signatures in one run
 	NonTrivial bool
 	LogHash    uint64
 	Events     int64
@@ -186,6 +188,9 @@ type Info struct {
 	ThoroughRuns  int
 	QuickWallS    int // wall-clock caps
 	ThoroughWallS int
+	// EvalsAreSteps: evidence "evaluations" counts Steps (e.g. faulted decode
+	// calls) instead of runs.
+	EvalsAreSteps bool
 	// MemLimitMB, when non-zero, is applied to workers via ulimit -v.
 	MemLimitMB int
 }
